@@ -14,7 +14,8 @@ RULE = ("cases = a generated class hierarchy (base with 2-4 named constraint blo
         "of constraint_mode(on/off) toggles on (instance, block) pairs interleaved with randomize calls and with creation "
         "of further instances; in ~45% of the cases the base class also has a random list q (2-bit elements) that blocks "
         "of every level constrain through foreach, and the history appends to q of single instances (also while blocks of "
-        "that instance are off).  Model: per instance {block name -> enabled}; enforced statements = the most-derived "
+        "that instance are off); the holder object has a block of its own that is named like a block of the objects it holds "
+        "(c0) and is toggled too.  Model: per instance {block name -> enabled}; enforced statements = the most-derived "
         "definition of every enabled name.  Oracle: the free draw lies in the enumerated S_ref(enforced) of that very "
         "instance (SolveFailure iff empty); pinned probe pairs per block B: an assignment violating only B is accepted iff "
         "B is off for that instance - run on the toggled instance and on every other one.  non-trivial = >=2 toggles on >=2 "
@@ -37,10 +38,15 @@ HOLDER_SRC = '''
 @vsc.randobj
 class H(object):
     def __init__(self, n_cls, e_classes):
+        self.t = vsc.rand_bit_t(3)
         self.n = vsc.rand_attr(n_cls())
         self.arr = vsc.rand_list_t(L0())
         for c in e_classes:
             self.arr.append(c())
+    @vsc.constraint
+    def c0(self):
+        # (a block of the HOLDER that has the same name as a block of the objects it holds)
+        self.t < 4
 '''
 
 
@@ -89,6 +95,8 @@ def cases(d):
             ninst += 1
         elif with_q and r < 32:
             ops.append(["qapp", d.randint(0, ninst - 1), d.randint(0, 3)])
+        elif r < 37:
+            ops.append(["hmode", d.randint(0, ninst - 1), d.randint(0, 1)])      # toggle block c0 of the instance's HOLDER
         elif r < 55:
             ops.append(["mode", d.randint(0, ninst - 1), d.randint(0, 5), d.randint(0, 1)])
         else:
@@ -163,6 +171,7 @@ def run_case(case):
         reset_library()
         return [V("library_exception", "construction: " + exc_sig(e), case, repr(e))], info
     insts = []
+    hstate = {}           # id(holder) -> its own block c0 is on (default True)
     holders = []          # (holder object, nested Inst or None, [elem Insts])
     pending = []          # nested/elem instances waiting for a holder: flushed at next op that needs them
     implicit = []
@@ -239,6 +248,12 @@ def run_case(case):
             it = insts[op[1]]
             if it.obj is None:
                 flush()
+            if op[0] == "hmode":
+                if it.holder is not None:
+                    it.holder.c0.constraint_mode(bool(op[2]))
+                    hstate[id(it.holder)] = bool(op[2])
+                    info["holder_toggles"] = info.get("holder_toggles", 0) + 1
+                continue
             if op[0] == "qapp":
                 if qspec is not None and it.qn < QMAX:
                     it.obj.q.append(op[2] % 4)
@@ -281,6 +296,8 @@ def run_case(case):
             else:
                 if any_empty:
                     return [V("returned_on_unsat", "randomize", case, where)], info
+                if it.holder is not None and hstate.get(id(it.holder), True) and int(it.holder.t) >= 4:
+                    return [V("wrong_blocks_enforced", "the holder's own block c0 is on but not enforced", case, where + ": holder.t=%d" % int(it.holder.t))], info
                 for g_i in group:
                     got = read(g_i)
                     if len(got) != 2 + g_i.qn:
@@ -292,6 +309,18 @@ def run_case(case):
                         return [V("wrong_blocks_enforced", "result violates the enabled most-derived blocks of this instance", case,
                                   where + ": instance #%d (level %d, %s, k=%d, enabled %s) got a=%d b=%d q=%s"
                                   % ((insts + implicit).index(g_i), g_i.level, g_i.place, g_i.k, cjson(en), got[0], got[1], list(got[2:])))], info
+            if it.holder is not None and not any_empty:
+                # the holder's own block c0 (t < 4): t == 6 is accepted iff that block is off, whatever the same-named
+                # blocks of the objects it holds are set to
+                st_h, exc_h = flat.do_call(ns, it.holder, "randomize_with", [["expr", ["bin", "==", ["f", "t"], ["lit", 6]]]], seed + 3)
+                info["probes"] += 1
+                if st_h == "exc":
+                    reset_library()
+                    return [V("library_exception", "holder probe: " + exc_h.sig, case, where + " raised %r" % (exc_h,))], info
+                h_on = hstate.get(id(it.holder), True)
+                if (st_h == "ret") == h_on:
+                    return [V("block_mode_mismatch", "block c0 of the holder %s" % ("not enforced although on" if h_on else "enforced although switched off"),
+                              case, where + ": holder block c0 is %s, pin t == 6 %s" % ("on" if h_on else "off", "returned" if st_h == "ret" else "raised SolveFailure"))], info
             # ---- pinned probe pairs, on this instance and on every other live top-level instance
             for o_i in [x for x in insts + implicit if x.obj is not None]:
                 if qspec is not None and o_i.holder is not None and o_i.path.startswith("arr"):
